@@ -13,6 +13,7 @@
    holds = emitted sequence equals the submitted sequence (same order, nothing
    lost, nothing duplicated) when the device is quiescent -- a prefix of it
    otherwise --, outbound counters strictly increase, nothing unprocessed. *)
+From Coq Require Import FMapPositive.
 From WG Require Import Base.Prelude.
 Local Open Scope N_scope.
 
@@ -57,12 +58,19 @@ Definition olane_ok (q : bool) (l : olane) : bool :=
 Definition ilane_ok (q : bool) (l : ilane) : bool :=
   same q (i_wr l) (i_arr l) && (i_bad l =? 0).
 
-Fixpoint distinctN (l : list N) : bool :=
-  match l with [] => true | x :: r => negb (existsb (N.eqb x) r) && distinctN r end.
+(* sets of sequence numbers as positive maps (the lanes have thousands of entries) *)
+Definition setN := PositiveMap.t unit.
+Definition addN (x : N) (s : setN) : setN := PositiveMap.add (N.succ_pos x) tt s.
+Definition inN (x : N) (s : setN) : bool := PositiveMap.mem (N.succ_pos x) s.
+Fixpoint distinct_from (seen : setN) (l : list N) : bool :=
+  match l with [] => true | x :: r => negb (inN x seen) && distinct_from (addN x seen) r end.
+Definition distinctN (l : list N) : bool := distinct_from (PositiveMap.empty unit) l.
+Definition set_of (l : list N) : setN := fold_left (fun s x => addN x s) l (PositiveMap.empty unit).
 
 Definition mlane_ok (complete : bool) (l : olane) : bool :=
   let e := map snd (o_sent l) in
-  distinctN e && forallb (fun x => existsb (N.eqb x) (o_read l)) e && (o_bad l =? 0) &&
+  let sub := set_of (o_read l) in
+  distinctN e && forallb (fun x => inN x sub) e && (o_bad l =? 0) &&
   (if complete then N.of_nat (length e) =? N.of_nat (length (o_read l)) else true).
 
 Definition holdsb (t : trace) : bool :=
